@@ -612,7 +612,7 @@ def bound_norm_py(res):
                                    "mean the same (unbounded) at every range "
                                    "entry point", path=[]))
     res.count("PY-BOUND-NORM", n)
-    res.floor("python omitted-bound tests", n, 6)
+    res.floor("python omitted-bound tests", n, 5)
 
 
 def bound_norm_c(tu):
